@@ -156,7 +156,7 @@ def tableNames (ct : Contract) : List String :=
   | .zcn => (zcn.filter (·.calls = [])).map (·.name)
 
 def dumpCfg (ct : Contract) (c : Cfg) : String :=
-  let fs := (tableNames ct).map fun n => n ++ "=" ++ showVal (c.val n)
+  let fs := (tableNames ct).map fun n => n ++ "=" ++ showVal (c.val (S n))
   let cs := c.cost.map fun (k, v) => "$" ++ esc k ++ s!"=i:{v}"
   "cfg " ++ " ".intercalate (sortStrs fs ++ sortStrs cs)
 
@@ -202,7 +202,8 @@ def step (w : W) (ws : List String) : W × String :=
       match ct with
       | .storage =>
         let s : Storage := ⟨w.storage, w.staged⟩
-        let (r, s') := storageUpdate P w.demeter canon caller input s
+        let br := storageBranch w.demeter
+        let (r, s') := storageUpdate P br.1 br.2 canon caller input s
         let bad := match input with
           | some m => badKeys (storageKey P) (mergeStaged w.staged m)
           | none => []
